@@ -87,7 +87,7 @@ theorem good_of_attempt {F : Type} (predict : Bytes → Res (Option Nat))
     (hp_whole : ∀ rest, predict (f ++ rest) = .ok (some n))
     (hp_pre : ∀ p, p <+: f → 2 ≤ p.length → predict p = .ok none ∨ predict p = .ok (some n))
     (he_whole : ∀ rest, extract (f ++ rest) n = .ok (some x))
-    (he_pre : ∀ p, p ≠ [] → p.length < f.length → extract p n = .ok none) :
+    (he_pre : ∀ p, p ≠ [] → p <+: f → p.length < f.length → extract p n = .ok none) :
     Good (scan (mkAttempt predict extract overhead)) f x := by
   refine ⟨by omega, ?_, ?_⟩
   · intro rest
@@ -106,7 +106,7 @@ theorem good_of_attempt {F : Type} (predict : Bytes → Res (Option Nat))
       apply scan_prefix_none _ _ _ hp2
       rcases hp_pre p hpre hp2 with h | h
       · simp only [mkAttempt, h, Res.bind'_ok]
-      · simp only [mkAttempt, h, Res.bind'_ok, he_pre p hne hlt, Res.map_ok]
+      · simp only [mkAttempt, h, Res.bind'_ok, he_pre p hne hpre hlt, Res.map_ok]
 
 /-! ### the specification's predictor -/
 
